@@ -9,7 +9,7 @@ CHECK = {
              'per script) are executed; each call is checked against both admissible outcomes (normal / documented failure), '
              '"failure => a failpoint fired inside this call" and "no failpoint fired => normal", contents are re-audited after '
              'every call, after the faults stop the script continues with further use, then releases everything (no live block '
-             'may remain). Client callbacks only for what the client owns: the pointer scripts (two variants flipping which allocations carry a clear callback / priv) record every block handed out by alloc+get; a clear callback for memory never handed out, twice, with a wrong priv, or a destruction without its callback is a violation; vector constructor/destructor calls are confined to the slots entering/leaving [0,size) of that call; map comparator and clear callbacks verify their priv. Distinct = (script, mask) pairs with at least one failpoint.'),
+             'may remain). What a failed call must not remember: hash functions are trampolines, the model knows which function is configured (and which one only a FAILED resize named): after a failed first resize the retry passes NULL (default function) or another function, a resize naming a third function fails while a rehash is pending; every keyed call must consult the function of the last effective resize and no other. Big elements: vector scripts with elements of 300, 4097 and 6000 bytes whose sort/reverse/search/find run under the script mask or with every allocation refused (capacity unchanged, every payload byte intact, own swap function checks its scratch argument). Client callbacks only for what the client owns: the pointer scripts (two variants flipping which allocations carry a clear callback / priv) record every block handed out by alloc+get; a clear callback for memory never handed out, twice, with a wrong priv, or a destruction without its callback is a violation; vector constructor/destructor calls are confined to the slots entering/leaving [0,size) of that call; map comparator and clear callbacks verify their priv. Distinct = (script, mask) pairs with at least one failpoint.'),
     'assumptions': ['documented failure shapes: map insert -1/end iterator; vector/string reserve, shrink and hash resize/shrink: no visible change; vector/string growth: abort with contents unchanged (set_str = resize(0)+append may leave the empty string); smart-pointer/array alloc on an occupied object = reset, then allocate: failure leaves it empty',
                     'a hash table whose first resize failed is still "not ready" and is re-resized before keyed calls',
                     'hash bucket counts far below the sizeof(bucket)*n wrap point (observation outside the stated properties, DESIGN section 4)',
